@@ -71,6 +71,8 @@ type Machine struct {
 	mergeLoops bool
 	deadline time.Time
 	skipTables bool
+	apxFloats  bool
+	apxSeq     int
 	inPerAlt bool
 	inHook   bool
 	freshMaps map[*MapV]int
@@ -835,7 +837,7 @@ func (m *Machine) iteVal(g *Term, a, b value) value {
 		case string, *SymStr:
 			return m.iteStr(g, a, b)
 		}
-	case float64, *FRat, *FTab, FUnknown:
+	case float64, *FRat, *FTab, *FApx, FUnknown:
 		return m.iteFloat(g, a, b)
 	}
 	panic(mergeFail{fmt.Sprintf("cannot ite %T / %T", a, b)})
